@@ -21,3 +21,16 @@ Lemma ex_runs_c : exists r, assemble_items ex_its [] [] true = Done r /\ r_label
 Proof. eexists. split. vm_compute. reflexivity. reflexivity. Qed.
 Lemma ex_runs_u : exists r, assemble_items ex_its [] [] false = Done r /\ r_labels r = [("a", 0); ("b", 8)].
 Proof. eexists. split. vm_compute. reflexivity. reflexivity. Qed.
+
+(* C12: a branch whose target lies behind an `align` that absorbs what compression saves in front of the branch:
+   add / add / beq L / align 4096 / dw 0 / L:   -- distance 4092 without compression, 4096 with it *)
+Definition exR3 (n rd a b : string) : item :=
+  IInstr "RTypeInstruction" n [("rd", FReg (AStr rd)); ("rs1", FReg (AStr a)); ("rs2", FReg (AStr b)); ("#rs2", FExpr (EArith (AName b)))] false.
+Definition ex12 : list litem :=
+  [(exL 1, exR3 "add" "x8" "x8" "x9"); (exL 2, exR3 "add" "x9" "x9" "x8");
+   (exL 3, IInstr "BTypeInstruction" "beq" [("rs1", FReg (AStr "x1")); ("rs2", FReg (AStr "x2")); ("imm", FExpr (EOff "L"))] false);
+   (exL 4, IAlign 4096); (exL 5, IShort "dw" (FExpr (EArith (ANum 0)))); (exL 6, ILabel "L")].
+Lemma ex12_uncompressed_ok : exists r, assemble_items ex12 [] [] false = Done r.
+Proof. eexists. vm_compute. reflexivity. Qed.
+Lemma ex12_compressed_fails : assemble_items ex12 [] [] true = Fail (PAsm (exL 3)).
+Proof. vm_compute. reflexivity. Qed.
